@@ -21,6 +21,7 @@ from vlib.tmodel import El, Probe, Text
 
 PROP = 'C01'
 TITLE = 'TAL statements: semantics and fixed order'
+DEBUG_SHARDS = True      # two of sixteen shards run the library in its debug mode (vlib/runner.py)
 LEVEL = 'exploration'
 SHARDS = {'quick': 16, 'thorough': 16}
 FLOOR = {'quick': 1500, 'thorough': 20000}
